@@ -1,6 +1,9 @@
 package props
 
 import (
+	"strconv"
+	"path/filepath"
+	"os"
 	"math"
 	"strings"
 	"sync"
@@ -200,6 +203,38 @@ func c01Split(c *core.Ctx, lines []string) (ids []int, contents []string) {
 	return ids, contents
 }
 
+// c01FileStorage writes the lists to scratch files (removed when the storage
+// is closed... by the caller's deferred RemoveAll) and returns a file-backed
+// storage, or nil.
+func c01FileStorage(c *core.Ctx, ids []int, contents []string) *filterlist.RuleStorage {
+	dir, err := os.MkdirTemp(filepath.Join(c.Env.VerifDir, ".work"), "c01f.")
+	if err != nil {
+		return nil
+	}
+	c01ScratchDirs = append(c01ScratchDirs, dir)
+	var ls []filterlist.RuleList
+	for i, content := range contents {
+		fn := filepath.Join(dir, "list"+strconv.Itoa(i)+".txt")
+		if os.WriteFile(fn, []byte(content), 0o644) != nil {
+			return nil
+		}
+		fl, ferr := filterlist.NewFileRuleList(ids[i], fn, false)
+		if ferr != nil {
+			return nil
+		}
+		ls = append(ls, fl)
+	}
+	s, serr := filterlist.NewRuleStorage(ls)
+	if serr != nil {
+		return nil
+	}
+
+	return s
+}
+
+// c01ScratchDirs are removed at the end of the case.
+var c01ScratchDirs []string
+
 func c01ScanNetwork(s *filterlist.RuleStorage) (out []*rules.NetworkRule) {
 	sc := s.NewRuleStorageScanner()
 	for sc.Scan() {
@@ -313,6 +348,12 @@ func c01Run(c *core.Ctx, idx int) {
 		return
 	}
 
+	defer func() {
+		for _, d := range c01ScratchDirs {
+			_ = os.RemoveAll(d)
+		}
+		c01ScratchDirs = nil
+	}()
 	maxRules := map[core.Tier]int{core.Quick: 160, core.Thorough: 400}[c.Env.Tier]
 	lines, specs := c01Pool(c, maxRules)
 	reqs := c01Requests(c, lines, specs, 30)
@@ -332,6 +373,14 @@ func c01Run(c *core.Ctx, idx int) {
 			c.Inconclusive("storage-rejected")
 
 			return
+		}
+		if v == 1 && c.Rng.Intn(2) == 0 {
+			// The same lists backed by files.
+			if fs := c01FileStorage(c, ids, contents); fs != nil {
+				s = fs
+				defer fs.Close()
+				c.Event("file_backed_variants", 1)
+			}
 		}
 		eng := urlfilter.NewNetworkEngine(s)
 		if v > 0 && c.Rng.Intn(3) == 0 {
